@@ -126,14 +126,14 @@ CLAIMED = {
              'not depend on their order, and when they are the merged table is the same map and the merged range the same interval; at the '
              'level of whole LIBRARIES GroupLibrary.Update is proved to work group by group and two libraries merged into a third in either order '
              'leave every group with the same table and range - also stated for a library FILE with two includes loaded in either order '
-             '(C13_library_update_groupwise, C13_library_order_free, C13_two_includes_order_free, C13_loaded_keys_unique; for deeper '
+             '(C13_library_update_groupwise, C13_library_order_free, C13_two_includes_order_free, C13_loaded_keys_unique); for ANY NUMBER of libraries in ANY ORDER: the merged table is exactly the union of what the sources give for the group, and permuted merge sequences / permuted include lists agree on every table and range (C13_library_sequence_is_union, C13_library_any_order, C13_includes_any_order; for deeper '
              'include trees and the reference values order-freeness is decided by the tree oracle; for files sharing one T_ref the merged reference enthalpy AND entropy are the other file\'s value where given - after the tolerance comparison - else the value there: C13_update_H_same_Tref, C13_update_S_same_Tref). IDEMPOTENCE: merging the same correlation a second '
              'time succeeds and returns the identical correlation - table, range, reference enthalpy and entropy, re-fit (C13_update_twice, for any '
              'reflexive isclose). '
              'Tie: correspondence of update sequences (state after every step) and of include trees; direct oracle: union / conflict / '
              'atomicity / idempotence on sequences, and all include orders and nestings (star, chain) of split data loading to equal contents.',
         design='5 / C13',
-        note=TB + 'Axioms: standard-library real-number axioms as printed. Files share one T_ref (quantifier); order-freeness of two included libraries is a theorem, over arbitrary '
+        note=TB + 'Axioms: standard-library real-number axioms as printed. Files share one T_ref (quantifier); order-freeness of tables and ranges over any number of included libraries in any permutation is a theorem, of reference values and acceptance over more than two files and over arbitrary '
              'include trees it is decided by the oracle over all generated orders.',
         technique='Coq proofs over R of a state+exception step model + vm_compute correspondence + all-orders load oracle'),
     'C18': dict(
